@@ -40,6 +40,8 @@ func newMqueue(q Qualifier, rule rule) (Rule, error) {
 		name = r[size-1]
 		if slices.Contains(requirements[MQUEUE]["access"], name) {
 			access += " " + name
+			access = strings.TrimSpace(access)
+			name = "" // The last token is an access, not a queue name
 		}
 	}
 	accesses, err := toAccess(MQUEUE, access)
